@@ -117,7 +117,8 @@ def merge(M, results):
         for k, v in r.get("enum_run", {}).items():
             mg["enum_run"][k] = mg["enum_run"].get(k, 0) + v
         for lab, rr in r.get("reach", {}).items():
-            t = mg["reach"].setdefault(lab, {"calls": 0, "lines_hit": set(), "lines_total": rr["lines_total"]})
+            t = mg["reach"].setdefault(lab, {"calls": 0, "lines_hit": set(), "lines_total": rr["lines_total"],
+                                             "lines_all": set(rr.get("lines_all", []))})
             t["calls"] += rr["calls"]
             t["lines_hit"].update(rr["lines_hit"])
     return mg
@@ -217,7 +218,8 @@ def decide_and_report(M, tier, seed, results, dead, nshards, wall_s):
                                 "complete": mg["enum_run"].get(name, 0) == N}
 
     # ---- evidence
-    reach = {lab: {"calls": r["calls"], "lines_hit": len(r["lines_hit"]), "lines_total": r["lines_total"]}
+    reach = {lab: {"calls": r["calls"], "lines_hit": len(r["lines_hit"]), "lines_total": r["lines_total"],
+                   "lines_not_executed": sorted(r.get("lines_all", set()) - r["lines_hit"])}
              for lab, r in sorted(mg["reach"].items())}
     samples = mg["samples"][:0]
     per = {}
